@@ -423,6 +423,15 @@ impl Indexable for ast::ParentClassList {
         if let Some(record_id) = ctx.scopes.current_record_id() {
             for class_ref in self.classes() {
                 if let Some(class_id) = resolve_class_ref_as_class(&class_ref, ctx) {
+                    // a parent edge from a class to itself would make every walk over the
+                    // class hierarchy recurse forever
+                    if class_id == record_id {
+                        ctx.error(
+                            class_ref.syntax().text_range(),
+                            "a class cannot be a parent of itself",
+                        );
+                        continue;
+                    }
                     let record = ctx.symbol_map.record_mut(record_id);
                     record.add_parent(class_id);
                 }
